@@ -76,17 +76,54 @@ func rootIdent(e ast.Expr) *ast.Ident {
 // address), and there is no `go` statement: the result of an extraction cannot depend
 // on earlier calls or on other goroutines through package state.
 func factPackageState() {
-	var writes, gos []string
+	var writes, gos, aliases []string
 	for _, pkg := range libraryPackages {
 		files := parseDir(pkg)
 		pkgVars := map[string]bool{}
+		refVars := map[string]bool{}     // package-level maps and slices
+		refElemVars := map[string]bool{} // ... whose elements are themselves maps, slices or pointers
 		for _, f := range files {
 			for _, d := range f.Decls {
 				if gd, ok := d.(*ast.GenDecl); ok && gd.Tok == token.VAR {
 					for _, s := range gd.Specs {
-						for _, n := range s.(*ast.ValueSpec).Names {
+						vs := s.(*ast.ValueSpec)
+						for i, n := range vs.Names {
 							if n.Name != "_" {
 								pkgVars[n.Name] = true
+								var t ast.Expr = vs.Type
+								if t == nil && i < len(vs.Values) {
+									switch v := vs.Values[i].(type) {
+									case *ast.CompositeLit:
+										t = v.Type
+									case *ast.CallExpr:
+										if fn, ok := v.Fun.(*ast.Ident); ok && fn.Name == "make" && len(v.Args) > 0 {
+											t = v.Args[0]
+										}
+									}
+								}
+								isRef := func(e ast.Expr) bool {
+									switch x := e.(type) {
+									case *ast.MapType, *ast.StarExpr:
+										return true
+									case *ast.ArrayType:
+										return x.Len == nil
+									}
+									return false
+								}
+								switch tt := t.(type) {
+								case *ast.MapType:
+									refVars[n.Name] = true
+									if isRef(tt.Value) {
+										refElemVars[n.Name] = true
+									}
+								case *ast.ArrayType:
+									if tt.Len == nil {
+										refVars[n.Name] = true
+									}
+									if isRef(tt.Elt) {
+										refElemVars[n.Name] = true
+									}
+								}
 							}
 						}
 					}
@@ -121,11 +158,87 @@ func factPackageState() {
 				where := func(p token.Pos) string {
 					return fmt.Sprintf("%s/%s:%d %s", pkg, fname, fset.Position(p).Line, fd.Name.Name)
 				}
+				// locals that hold an element of a package-level container of references
+				// (x := pkgMap[k]; for _, x := range pkgMap): writing through them, or storing
+				// them in a field, aliases package state
+				tainted := map[*ast.Object]string{}
+				fromPkgElem := func(e ast.Expr) string {
+					if ix, ok := e.(*ast.IndexExpr); ok {
+						if id, ok := ix.X.(*ast.Ident); ok && refElemVars[id.Name] && isPkgVar(id) {
+							return id.Name
+						}
+					}
+					return ""
+				}
+				ast.Inspect(fd.Body, func(n ast.Node) bool {
+					switch v := n.(type) {
+					case *ast.AssignStmt:
+						if v.Tok == token.DEFINE && len(v.Rhs) == 1 {
+							if src := fromPkgElem(v.Rhs[0]); src != "" {
+								if id, ok := v.Lhs[0].(*ast.Ident); ok && id.Obj != nil {
+									tainted[id.Obj] = src
+								}
+							}
+						}
+					case *ast.RangeStmt:
+						if id, ok := v.X.(*ast.Ident); ok && refElemVars[id.Name] && isPkgVar(id) {
+							if val, ok := v.Value.(*ast.Ident); ok && val.Obj != nil {
+								tainted[val.Obj] = id.Name
+							}
+						}
+					}
+					return true
+				})
+				ast.Inspect(fd.Body, func(n ast.Node) bool {
+					switch v := n.(type) {
+					case *ast.AssignStmt:
+						for i, rhs := range v.Rhs {
+							if id, ok := rhs.(*ast.Ident); ok && id.Obj != nil && tainted[id.Obj] != "" && i < len(v.Lhs) {
+								if l, ok := v.Lhs[i].(*ast.Ident); !ok || l.Name != "_" {
+									if _, isIdent := v.Lhs[i].(*ast.Ident); !isIdent || v.Tok != token.DEFINE {
+										aliases = append(aliases, where(rhs.Pos())+" stores an element of "+tainted[id.Obj]+" ("+id.Name+")")
+									}
+								}
+							}
+						}
+						if v.Tok != token.DEFINE {
+							for _, lhs := range v.Lhs {
+								if _, plain := lhs.(*ast.Ident); !plain {
+									if id := rootIdent(lhs); id != nil && id.Obj != nil && tainted[id.Obj] != "" {
+										writes = append(writes, where(lhs.Pos())+" writes through an element of "+tainted[id.Obj]+" ("+id.Name+")")
+									}
+								}
+							}
+						}
+					case *ast.ReturnStmt:
+						for _, e := range v.Results {
+							if id, ok := e.(*ast.Ident); ok && id.Obj != nil && tainted[id.Obj] != "" {
+								aliases = append(aliases, where(e.Pos())+" returns an element of "+tainted[id.Obj]+" ("+id.Name+")")
+							}
+						}
+					}
+					return true
+				})
 				ast.Inspect(fd.Body, func(n ast.Node) bool {
 					switch v := n.(type) {
 					case *ast.GoStmt:
 						gos = append(gos, where(v.Pos()))
+					case *ast.ReturnStmt:
+						for _, e := range v.Results {
+							if id, ok := e.(*ast.Ident); ok && refVars[id.Name] && isPkgVar(id) {
+								aliases = append(aliases, where(e.Pos())+" returns "+id.Name)
+							}
+						}
+					case *ast.KeyValueExpr:
+						if id, ok := v.Value.(*ast.Ident); ok && refVars[id.Name] && isPkgVar(id) {
+							aliases = append(aliases, where(v.Pos())+" stores "+id.Name+" in a composite literal")
+						}
 					case *ast.AssignStmt:
+						for _, rhs := range v.Rhs {
+							if id, ok := rhs.(*ast.Ident); ok && refVars[id.Name] && isPkgVar(id) {
+								aliases = append(aliases, where(rhs.Pos())+" aliases "+id.Name)
+							}
+						}
 						if v.Tok == token.DEFINE {
 							return true
 						}
@@ -156,6 +269,7 @@ func factPackageState() {
 			}
 		}
 	}
+	facts["no-package-state-aliases"] = Fact{OK: len(aliases) == 0, Detail: detail(aliases, "no package-level map or slice is assigned to another variable or field, returned, or stored in a composite literal (it is only indexed, ranged over or measured)")}
 	facts["no-package-state-writes"] = Fact{OK: len(writes) == 0, Detail: detail(writes, "no package-level variable is written outside init in "+fmt.Sprint(len(libraryPackages))+" library packages")}
 	facts["no-go-statements"] = Fact{OK: len(gos) == 0, Detail: detail(gos, "no go statement in library code")}
 }
